@@ -150,6 +150,12 @@ func parseFrame(s *tokStream) (*frame, error) {
 			f.acts = append(f.acts, a)
 		case "V":
 			f.acts = append(f.acts, &act{kind: 'V'})
+		case "Q":
+			a := &act{kind: 'Q'}
+			if a.addr, err = s.next(); err != nil {
+				return nil, err
+			}
+			f.acts = append(f.acts, a)
 		default:
 			return nil, fmt.Errorf("bad token %q", t)
 		}
